@@ -21,17 +21,18 @@ class Scn:
     for move a target directory T (same or other device) optionally pre-populated."""
 
     def __init__(self, op, nolock=False, locked=(), collision=None, tdev="same", threads=1, size=3000, nfiles=3,
-                 tinside=False, reldir=False, extra_groups=0, label="", names=None, locktype="ex"):
+                 tinside=False, reldir=False, extra_groups=0, label="", names=None, locktype="ex", hardlink=False):
         self.op, self.nolock, self.locked, self.collision = op, nolock, tuple(locked), collision
         self.tdev, self.threads, self.size, self.nfiles = tdev, threads, size, nfiles
         self.tinside, self.reldir, self.extra_groups, self.label = tinside, reldir, extra_groups, label
         self.names, self.locktype = names, locktype
+        self.hardlink = hardlink        # the last member is a hard link of the first (retained) one; the report is made with --match-links
 
     def key(self):
         return dict(op=self.op, nolock=self.nolock, locked=list(self.locked), collision=self.collision, tdev=self.tdev,
                     threads=self.threads, size=self.size, nfiles=self.nfiles, tinside=self.tinside, reldir=self.reldir,
                     extra_groups=self.extra_groups, names=[lib.printable(n) for n in self.names] if self.names else None,
-                    locktype=self.locktype, label=self.label)
+                    locktype=self.locktype, label=self.label, hardlink=self.hardlink)
 
 
 def content(tag, size):
@@ -44,7 +45,10 @@ def materialize(scn, work):
     os.makedirs(g)
     names = list(scn.names) if scn.names else ["a", "b", "c", "d", "e"][:scn.nfiles]
     for n in names:
-        lib.write_file(os.path.join(g, n), content("X", scn.size))
+        if scn.hardlink and n == names[-1]:
+            os.link(os.path.join(g, names[0]), os.path.join(g, n))
+        else:
+            lib.write_file(os.path.join(g, n), content("X", scn.size))
     members = [os.path.join(g, n) for n in names]
     for i in range(scn.extra_groups):
         for n in ("p", "q"):
@@ -278,7 +282,7 @@ def run_case(scn, plan=None, plan_class="none", report_fmt="default", emuclone=T
         env = lib.base_env(work)
         env["RAYON_NUM_THREADS"] = str(scn.threads)
         rep = os.path.join(work, "report")
-        g = lib.run_fclones(["group", "r", "-o", rep, "-f", report_fmt], work, env)
+        g = lib.run_fclones(["group", "r", "-o", rep, "-f", report_fmt] + (["-H"] if scn.hardlink else []), work, env)
         if g.rc != 0:
             raise lib.ToolError(f"group failed in scenario {scn.key()}: {g.err[-500:]}")
         prj = Projector(work, tdir)
